@@ -263,6 +263,32 @@ def rule_message_validator_exact(fb, res, rid, prefix="isValidPacket:"):
             return "L"
         return None
     nret = 0
+    per_return = []
+    ERRBIT = 0x40
+    FLAGS = (NS + "MessageHeader::getCommonFlag", NS + "MessageHeader::getCommonFlags")
+
+    def flag_test_exact(a):
+        if a[0] == "truth":
+            c = strip_all_casts(facts.expand(ivp, a[3]))
+            if c.get("k") == "call" and callee_name(c) == FLAGS[0] and len(c.get("args", [])) == 1 and const_value(c["args"][0]) == ERRBIT:
+                return a[2] is False
+            if c.get("k") == "bin" and c.get("op") == "&":
+                for x, y in ((c["l"], c["r"]), (c["r"], c["l"])):
+                    if callee_name(strip_all_casts(x)) == FLAGS[1] and const_value(y) == ERRBIT:
+                        return a[2] is False
+            return False
+        if a[0] == "cmp":
+            for x, y, op in ((a[4], a[5], a[2]), (a[5], a[4], facts._flip_op(a[2]))):
+                xs = strip_all_casts(facts.expand(ivp, x))
+                cy = const_value(y)
+                masked = xs.get("k") == "bin" and xs.get("op") == "&" and any(
+                    callee_name(strip_all_casts(u)) == FLAGS[1] and const_value(v) == ERRBIT for u, v in ((xs["l"], xs["r"]), (xs["r"], xs["l"])))
+                if masked and ((op == "==" and cy == 0) or (op == "!=" and cy == ERRBIT) or (op == "<" and cy in (1, ERRBIT)) or (op == "<=" and cy == 0)):
+                    return True
+                if xs.get("k") == "call" and callee_name(xs) == FLAGS[0] and len(xs.get("args", [])) == 1 and const_value(xs["args"][0]) == ERRBIT and \
+                        ((op == "==" and cy == 0) or (op == "!=" and cy == 1)):
+                    return True
+        return False
     for r in ivp.returns():
         e = r.get("e")
         if const_value(e) == 0:
@@ -272,6 +298,8 @@ def rule_message_validator_exact(fb, res, rid, prefix="isValidPacket:"):
             atoms += conjuncts(e, True, ivp)
         nret += 1
         seen = set()
+        have = {"flag": False, "type": False}
+        per_return.append((r, have))
         for a in atoms:
             key = a[:4] if a[0] == "cmp" else a[:3]
             if key in seen:
@@ -288,10 +316,17 @@ def rule_message_validator_exact(fb, res, rid, prefix="isValidPacket:"):
             if not getters and not mentions_size:
                 continue  # says nothing about the message
             if getters <= {NS + "MessageHeader::getCommonFlag", NS + "MessageHeader::getCommonFlags"} and not mentions_size:
-                continue  # error-in-payload flag (its bit is C04-R5 / C12-R1f's)
-            if getters == {NS + "MessageHeader::getPayloadType"} and not mentions_size:
+                # the error-in-payload flag and nothing else of the common flags: `!getCommonFlag(errorInPayload)` or `(getCommonFlags() & 0x40) == 0`
+                # (the position of the bit behind the enumerator is C04-R5 / C12-R1f's).  A magnitude comparison of the whole byte, another
+                # mask or another enumerator makes the reserved bit / the other flags a reason for rejection.
+                if flag_test_exact(a):
+                    have["flag"] = True
+                    continue
+                why = "tests the common flags for something else than `error-in-payload (0x%02X) is clear`" % ERRBIT
+            elif getters == {NS + "MessageHeader::getPayloadType"} and not mentions_size:
                 ok = a[0] == "cmp" and a[2] == "!=" and 0 in (const_value(a[4]), const_value(a[5])) or (a[0] == "truth" and a[2] is True)
                 if ok:
+                    have["type"] = True
                     continue
                 why = "tests the payload type for something else than `!= 0`"
             elif getters <= {LEN} and a[0] == "cmp" and a[2] in ("<", "<=", ">", ">="):
@@ -323,6 +358,14 @@ def rule_message_validator_exact(fb, res, rid, prefix="isValidPacket:"):
                     "the frame and the endpoint's pending reassembly" % (((a[1][:60], a[2], a[3][:40]) if a[0] == "cmp" else (a[1][:60], "is", a[2])) + (why,)))
     if nret == 0:
         raise Broken("isValidPacket never returns true")
+    # ... and each of them is demanded wherever a message is accepted (size and length: C03-R4's min-size / length-bound): a message with the
+    # error flag set, or with payload type 0, is not a message the decoder may build a packet from or append to a reassembly
+    for what, txt in (("flag", "the error-in-payload flag is clear"), ("type", "the payload type is not 0")):
+        missing = [r for r, have in per_return if not have[what]]
+        res.check(not missing, rid, prefix + "rejects-invalid-messages:%s" % what, (missing[0].get("loc") if missing else ivp.loc),
+                  "every accepting return has established that %s" % txt,
+                  "isValidPacket accepts a message on a path that has not established that %s: such a message is decoded / appended to the endpoint's "
+                  "open reassembly instead of ending it — the buffer is kept and a later last segment delivers a message that should have been dropped" % txt)
     res.ok(rid, prefix + "accepts-complete-messages", ivp.loc, "every acceptance condition is one of: header fits, declared payload fits, error flag clear, "
            "payload type != 0 (%d accepting return(s))" % nret)
 
